@@ -56,6 +56,16 @@ Theorem reorder_one_result_per_input : forall (T R : Type) (f : T -> R) (p : rpa
 Proof. intros T R. exact reorder_itemwise_proof. Qed.
 Print Assumptions reorder_one_result_per_input.
 
+(* Quiescence is always reachable: in every reachable state that is not quiescent some goroutine can take a step
+   (no deadlock between the flush mutex, the slots of the buffer and the buffer mutex; the consumer keeps receiving). *)
+Theorem reorder_no_deadlock : forall (T R : Type) (fetch : list T -> list R) (p : rparams),
+  rp_fixed p = true ->
+  forall (sc : list (aop T)) (acts : list action),
+  let s := run fetch p acts (r_init sc) in
+  quiescent s = false -> exists a, step_opt fetch p a s <> None.
+Proof. intros T R. exact reorder_no_deadlock_proof. Qed.
+Print Assumptions reorder_no_deadlock.
+
 (* ---- the code before the repair (rp_fixed = false) does not have the property: D19 ---- *)
 
 (* (i) a time-out flusher overtaken between Flush and Reserve: Output is not a prefix of the results in input order.
@@ -66,8 +76,7 @@ Theorem reorder_in_order_old_refuted : exists (p : rparams) (sc : list (aop N)) 
   ~ prefix (out s) (concat (map (fun l => l) (flushed s))).
 Proof.
   exists old_params, old_script, old_swap_schedule. split; [reflexivity|].
-  intros s H. apply prefix_is_prefix_of in H.
-  destruct old_code_swaps as [_ [_ E]]. fold s in E. rewrite E in H. discriminate.
+  cbv zeta. rewrite old_swap_run. exact old_swap_not_prefix.
 Qed.
 Print Assumptions reorder_in_order_old_refuted.
 
@@ -78,7 +87,7 @@ Theorem reorder_no_loss_old_refuted : exists (p : rparams) (sc : list (aop N)) (
   quiescent s = true /\ batch (bt s) = [] /\ out s <> map (fun x => x) (added s).
 Proof.
   exists old_params, old_script, old_dup_schedule. split; [reflexivity|].
-  vm_compute. repeat split. discriminate.
+  cbv zeta. rewrite old_dup_run. exact old_code_loses.
 Qed.
 Print Assumptions reorder_no_loss_old_refuted.
 
